@@ -22,7 +22,7 @@ enum S {
     Assign(String, E),      // name = e   (name is a use)
     Block(Vec<S>),
     If(E, Vec<S>, Option<Vec<S>>),
-    Loop(Vec<S>),           // times(2) { .. }
+    Loop(u8, Vec<S>),       // 0: times(2) { .. }  1: loop { .. }  2: while (1) { .. }  3: do { .. } while (0);
 }
 
 const POOL: &[&str] = &["a", "b", "c", "d", "e"];
@@ -59,7 +59,7 @@ fn gen_block(t: &mut Tape, depth: usize, budget: &mut usize, names: &[&str], out
             6 => { let n = if !declared.is_empty() && !t.chance(1, 5) { t.pick(&declared).clone() } else { (*t.pick(POOL)).to_string() }; S::Assign(n, gen_e(t, 1, names, &declared)) }
             7 if depth > 0 => S::Block(gen_block(t, depth - 1, budget, names, &declared)),
             8 if depth > 0 => { let c = gen_e(t, 1, names, &declared); let a = gen_block(t, depth - 1, budget, names, &declared); let b = if t.bool() { Some(gen_block(t, depth - 1, budget, names, &declared)) } else { None }; S::If(c, a, b) }
-            9 if depth > 0 => S::Loop(gen_block(t, depth - 1, budget, names, &declared)),
+            9 if depth > 0 => { let kind = t.below(4) as u8; S::Loop(kind, gen_block(t, depth - 1, budget, names, &declared)) }
             _ => S::Use(gen_e(t, 1, names, &declared)),
         };
         out.push(s);
@@ -80,7 +80,10 @@ fn print_block(b: &[S], ind: usize, out: &mut String) {
             S::Assign(n, e) => { out.push_str(&format!("{}{} = ", pad, n)); print_e(e, out); out.push_str(";\n"); }
             S::Block(b) => { out.push_str(&format!("{}{{\n", pad)); print_block(b, ind + 1, out); out.push_str(&format!("{}}}\n", pad)); }
             S::If(c, a, b) => { out.push_str(&format!("{}if (", pad)); print_e(c, out); out.push_str(") {\n"); print_block(a, ind + 1, out); if let Some(b) = b { out.push_str(&format!("{}}} else {{\n", pad)); print_block(b, ind + 1, out); } out.push_str(&format!("{}}}\n", pad)); }
-            S::Loop(b) => { out.push_str(&format!("{}times(2) {{\n", pad)); print_block(b, ind + 1, out); out.push_str(&format!("{}}}\n", pad)); }
+            S::Loop(kind, b) => {
+                let (open, close) = match kind { 0 => ("times(2) {", "}"), 1 => ("loop {", "}"), 2 => ("while (1) {", "}"), _ => ("do {", "} while (0);") };
+                out.push_str(&format!("{}{}\n", pad, open)); print_block(b, ind + 1, out); out.push_str(&format!("{}{}\n", pad, close));
+            }
         }
     }
 }
@@ -164,7 +167,7 @@ impl Model {
                 S::Assign(n, e) => { let r = self.lookup(n, false); if matches!(r, Res::Error(_)) { self.errors += 1; } self.occ.push((n.clone(), r)); self.expr(e, false); }
                 S::Block(inner) => self.block(inner),
                 S::If(c, a, e) => { self.expr(c, false); self.block(a); if let Some(e) = e { self.block(e); } }
-                S::Loop(inner) => self.block(inner),
+                S::Loop(_, inner) => self.block(inner),
             }
         }
         self.ribs.pop();
@@ -221,7 +224,7 @@ fn s_to_json(b: &[S]) -> Value {
     fn e(x: &E) -> Value { match x { E::Lit(v) => json!(v), E::Name(n) => json!(n), E::Add(a, b) => json!([e(a), e(b)]) } }
     json!(b.iter().map(|s| match s {
         S::Decl(n, x) => json!({"decl": n, "e": e(x)}), S::Const(n, x) => json!({"const": n, "e": e(x)}), S::Use(x) => json!({"use": e(x)}), S::Assign(n, x) => json!({"assign": n, "e": e(x)}),
-        S::Block(b) => json!({"block": s_to_json(b)}), S::If(c, a, b) => json!({"if": e(c), "then": s_to_json(a), "else": b.as_ref().map(|b| s_to_json(b))}), S::Loop(b) => json!({"loop": s_to_json(b)}),
+        S::Block(b) => json!({"block": s_to_json(b)}), S::If(c, a, b) => json!({"if": e(c), "then": s_to_json(a), "else": b.as_ref().map(|b| s_to_json(b))}), S::Loop(k, b) => json!({"loop": s_to_json(b), "kind": k}),
     }).collect::<Vec<_>>())
 }
 fn s_from_json(v: &Value) -> Vec<S> {
@@ -233,7 +236,7 @@ fn s_from_json(v: &Value) -> Vec<S> {
         else if let Some(n) = s.get("assign") { S::Assign(n.as_str().unwrap().into(), e(&s["e"])) }
         else if let Some(b) = s.get("block") { S::Block(s_from_json(b)) }
         else if let Some(c) = s.get("if") { S::If(e(c), s_from_json(&s["then"]), if s["else"].is_null() { None } else { Some(s_from_json(&s["else"])) }) }
-        else { S::Loop(s_from_json(&s["loop"])) }
+        else { S::Loop(s["kind"].as_u64().unwrap_or(0) as u8, s_from_json(&s["loop"])) }
     }).collect()
 }
 
@@ -254,7 +257,7 @@ fn rename(b: &[S], occ: &[(String, Res)], k: &mut usize, names: &mut BTreeMap<us
         S::Assign(n, e) => { let n2 = nm(n, occ, k, names); let e2 = ex(e, occ, k, names); S::Assign(n2, e2) }
         S::Block(b) => S::Block(rename(b, occ, k, names)),
         S::If(c, a, e) => { let c2 = ex(c, occ, k, names); let a2 = rename(a, occ, k, names); let e2 = e.as_ref().map(|e| rename(e, occ, k, names)); S::If(c2, a2, e2) }
-        S::Loop(b) => S::Loop(rename(b, occ, k, names)),
+        S::Loop(kind, b) => S::Loop(*kind, rename(b, occ, k, names)),
     }).collect()
 }
 
